@@ -24,7 +24,7 @@ func formatFuncs(c *Ctx, extra ...string) []*ssa.Function {
 	}
 	var out []*ssa.Function
 	for _, f := range c.moduleFuncs() {
-		if want[funcPkgPath(f)] {
+		if want[funcPkgPath(f)] && inScopeRel(strings.TrimPrefix(funcPkgPath(f), modPath+"/")) {
 			out = append(out, f)
 		}
 	}
